@@ -72,6 +72,10 @@ def step (c : Chunk) (tok : String) : Option (Chunk × String) :=
     let (c', t, rest) := c.readFrom cfGo cs
     pure (c', s!"rf={t},rest={rest.flatten.length}")
   | ["wt"] => let (c', out) := c.writeTo; pure (c', s!"wt={hexOrDash out}")
+  | ["wl", k] => do
+    let k ← natOf k
+    let (c', out, e) := c.writeToLim k
+    pure (c', s!"wl={out.length},{hexOrDash out}{if e then ",err" else ""}")
   | _ => none
 
 def runSeq (c : Chunk) : List String → Option (List String)
